@@ -99,6 +99,7 @@ macro_rules! sme { ($name:ident, $d:literal, $ds:literal) => {
   #[kani::stub(crate::largest_center_to_vertex_distance_with_radius, ghost_c2v)]
   #[kani::stub(crate::best_starting_depth, ghost_bsd)]
   #[kani::stub(crate::has_best_starting_depth, ghost_has_bsd)]
+  #[kani::stub(<[u64]>::sort_unstable, ghost_sort_unstable)]
   #[kani::stub(BMOCBuilderUnsafe::new, vb::ghost_new)]
   #[kani::stub(BMOCBuilderUnsafe::push, vb::ghost_push)]
   #[kani::unwind(12)]
@@ -266,3 +267,24 @@ macro_rules! ellrec { ($name:ident, $d0:literal, $dl:literal) => {
 ellrec!(ellipse_recur_delta0, 3, 0);
 ellrec!(ellipse_recur_delta1, 0, 1);
 ellrec!(ellipse_recur_delta2, 2, 2);
+
+// contract of `<[u64]>::sort_unstable` used as a stub in the small-ellipse units: the slice afterwards
+// is ascending and holds the same set of values (each old value present, each new value an old one);
+// multiplicities are irrelevant to the caller, which dedups next.
+static mut SORT_STUBBED: bool = false;
+fn ghost_sort_unstable<T: Ord>(v: &mut [T]) {
+  unsafe { SORT_STUBBED = true; }
+  let n = v.len();
+  assert!(n <= 9, "sort contract stub sized for at most 9 elements (a cell and its 8 neighbours)");
+  // selection sort by swaps is a permutation by construction; written with concrete 9x9 bounds
+  let mut i = 0;
+  while i < 9 { let mut j = i + 1; while j < 9 { if j < n && v[j] < v[i] { v.swap(i, j); } j += 1; } i += 1; }
+}
+#[kani::proof] #[kani::unwind(11)]
+#[kani::stub(<[u64]>::sort_unstable, ghost_sort_unstable)]
+fn sort_stub_probe() {
+  let mut a: [u64; 3] = kani::any();
+  a[..].sort_unstable();
+  assert!(a[0] <= a[1] && a[1] <= a[2], "sorted");
+  assert!(unsafe { SORT_STUBBED }, "the sort contract stub is in effect");
+}
